@@ -171,7 +171,7 @@ theorem cross_final_mod (hrb1 : 1 ≤ rb) {K : Int} {pinit take aStart : Nat} {s
     (h : COut ab rb rs 0 H a K pinit take aStart aStart st) :
     st.stuck = false ∧ st.res.length = rs ∧ (∀ d ∈ st.res, |d| ≤ 2 ^ rb - 1) ∧
     ∃ Z : Int, K = valI rb st.res + 2 ^ (rb * rs) * Z := by
-  rcases h with ⟨hlt, _⟩ | hf | hf
+  rcases h with ⟨hlt, _⟩ | ⟨_, _, _, hf⟩ | hf
   · omega
   · exact ⟨hf.ns, hf.len, hf.lims, hf.val⟩
   · refine ⟨hf.ns, hf.len, hf.lims, st.resCarry, ?_⟩
